@@ -688,6 +688,40 @@ class PrintReader:
                             m[lb] = what
                 if m:
                     break
+            if not m:
+                # iterative form: `while (node->get_kind() != IDENTIFIER) { operand = table(node->get_kind()); if (operand < 0)
+                # return symbol_t(); node = &node->get(operand); } return node->data->symbol;` with the table a file-local
+                # function of the kind that returns literal operand indices
+                for fn in self.F.fns("UTAP::expression_t::get_symbol"):
+                    if fn.get("body") is None or len(fn.get("params", [])) != 0:
+                        continue
+                    loops = [x for x in walk(fn["body"]) if x.get("k") in ("while", "for")]
+                    for c in calls(fn["body"]):
+                        if c.get("ck") not in ("free", "static") or len(c.get("args", [])) != 1 or \
+                                not any(y.get("name") == "get_kind" for y in calls(c["args"][0])):
+                            continue
+                        for t in self.F.fns(c.get("fn") or ""):
+                            if t.get("body") is None or t.get("cls"):
+                                continue
+                            sws = [x for x in walk(t["body"]) if x.get("k") == "switch"]
+                            if not sws or not loops:
+                                continue
+                            for labels, stmts in _switch_groups(sws[0]):
+                                for x in walk({"k": "block", "s": stmts}):
+                                    if x.get("k") == "return" and x.get("e") is not None:
+                                        e = x["e"]
+                                        while e.get("k") in ("cast", "paren"):
+                                            e = e["e"]
+                                        if e.get("k") == "int":
+                                            for lb in labels:
+                                                if lb and lb != "default":
+                                                    m[lb] = e["v"]
+                                        break
+                    if m and any(x.get("k") == "member" and x.get("name") == "symbol" for x in walk(fn["body"])):
+                        m["IDENTIFIER"] = "leaf"
+                if not m or "IDENTIFIER" not in m:
+                    raise AnalysisBroken("expression_t::get_symbol: neither the recursive switch form nor the iterative "
+                                         "table form could be read")
             self._symmap = m
         return self._symmap
 
